@@ -87,7 +87,11 @@ func parseModel(out string) map[string]string {
 
 // Solve races the installed solvers on one script; the first definitive answer wins.
 func Solve(script string, timeout time.Duration, which []string) *SolverResult {
-	ctx, cancel := context.WithCancel(context.Background())
+	return SolveCtx(context.Background(), script, timeout, which)
+}
+
+func SolveCtx(pctx context.Context, script string, timeout time.Duration, which []string) *SolverResult {
+	ctx, cancel := context.WithCancel(pctx)
 	defer cancel()
 	ch := make(chan *SolverResult, len(solverSpecs))
 	n := 0
@@ -253,7 +257,32 @@ func (ex *Exec) Discharge(timeout time.Duration, keepScripts string) []*OblResul
 					}
 				}
 			}
-			sr := Solve(j.script, timeout, nil)
+			var sr *SolverResult
+			if fs := ex.focusScript(o); fs != "" {
+				// race the full query against one without the quantified hypotheses of the
+				// other invariant clauses (fewer assumptions: an unsat answer is still sound)
+				type res struct {
+					sr    *SolverResult
+					focus bool
+				}
+				ch := make(chan res, 2)
+				ctx, cancel := context.WithCancel(context.Background())
+				go func() { ch <- res{SolveCtx(ctx, fs, timeout, nil), true} }()
+				go func() { ch <- res{SolveCtx(ctx, j.script, timeout, nil), false} }()
+				for k := 0; k < 2 && sr == nil; k++ {
+					x := <-ch
+					switch {
+					case x.sr.Status == "unsat" && x.focus:
+						sr = x.sr
+						sr.Solver += "(focused)"
+					case !x.focus:
+						sr = x.sr
+					}
+				}
+				cancel()
+			} else {
+				sr = Solve(j.script, timeout, nil)
+			}
 			r.Solver, r.Raw = sr.Solver, sr.Raw
 			r.Seconds += sr.Seconds
 			switch sr.Status {
@@ -273,6 +302,31 @@ func (ex *Exec) Discharge(timeout time.Duration, keepScripts string) []*OblResul
 	}
 	wg.Wait()
 	return results
+}
+
+// focusScript builds the reduced query for a loop-invariant obligation, or "" when it would
+// not differ from the full one.
+func (ex *Exec) focusScript(o *Obligation) string {
+	if o.Focus == "" {
+		return ""
+	}
+	ts := ex.ts
+	var keep []*Term
+	dropped := false
+	ex.smtMu.Lock()
+	for _, f := range ex.facts[:o.NFacts] {
+		if tag := ex.factTag[f]; tag != "" && tag != o.Focus && ts.HasQuant(f) {
+			dropped = true
+			continue
+		}
+		keep = append(keep, f)
+	}
+	ex.smtMu.Unlock()
+	if !dropped {
+		return ""
+	}
+	keep = append(keep, o.PC, ts.Not(o.Goal))
+	return ts.SMTScriptLocked(&ex.smtMu, keep, nil)
 }
 
 func (r *OblResult) String() string {
